@@ -230,6 +230,12 @@ def random_script(rng, maxlen):
             d = dst()
             ops.append([6, d, mode, code, a, b, rng.randrange(4)])
             t = oa["tape"] if oa["tape"] is not None else ob["tape"]
+            panics = oa["tape"] is not None and ob["tape"] is not None and oa["tape"] != ob["tape"]
+            if oa["kind"] != "rec":
+                panics = panics or (oa["rows"], oa["cols"]) != (ob["rows"], ob["cols"]) \
+                    or (oa["kind"] == "ten" and oa["names"] != ob["names"])
+            if panics:
+                continue      # the call panics: the destination register keeps its old content
             regs[d] = dict(oa, tape=t, bits=bits)
             if t is not None:
                 used[t] += 1 if oa["kind"] == "rec" else oa["rows"] * oa["cols"]
@@ -251,8 +257,11 @@ def random_script(rng, maxlen):
             d = dst()
             ops.append([7, d, a, b, rng.randrange(4)])
             t = oa["tape"] if oa["tape"] is not None else ob["tape"]
+            if (oa["tape"] is not None and ob["tape"] is not None and oa["tape"] != ob["tape"]) \
+                    or ob["rows"] != oa["cols"] or (oa["kind"] == "ten" and oa["names"][0] == ob["names"][1]):
+                continue      # panics
             regs[d] = dict(kind=oa["kind"], tape=t, rows=oa["rows"], cols=ob["cols"], bits=bits,
-                           names=[oa.get("names", [0, 1])[0], ob.get("names", [0, 1])[1]])
+                           names=[oa["names"][0], ob["names"][1]])
             if t is not None:
                 used[t] += 2 * oa["rows"] * ob["cols"] * oa["cols"]
         elif k < 0.78:
